@@ -490,6 +490,7 @@ func runWorkers(chk *Check, h *Harness, tier, work string) (*Result, int, error)
 	res := NewResult()
 	res.Done = true
 	set := map[uint64]struct{}{}
+	emitAll := map[[16]byte]emitRec{}
 	for _, ws := range states {
 		b, err := os.ReadFile(ws.out)
 		if err != nil {
@@ -530,6 +531,20 @@ func runWorkers(chk *Check, h *Harness, tier, work string) (*Result, int, error)
 		for _, hh := range ReadHashes(ws.out + ".hashes") {
 			set[hh] = struct{}{}
 		}
+		ReadEmit(ws.out+".emit", func(k [16]byte, v uint64, ch []byte) {
+			if old, ok := emitAll[k]; ok {
+				if old.val != v {
+					res.VioCounts["injectivity"]++
+					if res.VioCounts["injectivity"] <= maxVioPerClass {
+						res.Violations = append(res.Violations, Violation{Property: chk.ID, Harness: h.Name, Tier: tier,
+							Choices: decodeChoices(ch), Choices2: decodeChoices(old.choices), Class: "injectivity",
+							Message: fmt.Sprintf("two different cases (explored by different workers) map to the same identifier %x", k)})
+					}
+				}
+				return
+			}
+			emitAll[k] = emitRec{val: v, choices: append([]byte{}, ch...)}
+		})
 	}
 	res.Distinct = int64(len(set))
 	if len(crashes) > 0 {
